@@ -181,6 +181,31 @@ PROPS["C16"] = {
     "level_note": "Trusted: VerifSetCacheSize hook (replaces the LRU while nothing is dirty), the per-statement dirty-set bound (rows/4 leaves + path + catalog <= capacity, deliberately loose).",
 }
 
+PROPS["C17"] = {
+    "kind": "harness", "test": "TestC17", "level": "exploration",
+    "tiers": tiers(250, 4, 2500, 16),
+    "rule": "rapid-generated session histories of 8-60 operations over the database names d1,d2,d3,shop: CREATE DATABASE (new / existing), USE (other / current / non-existent), SHOW DATABASES, valid DDL/DML on the selected database (a table statement with nothing selected must fail), "
+            "timer ticks (VerifTickAll runs flushPages on every store that owns a flush timer right now, oldest or newest first - including stores a USE left behind), clean restarts and crash restarts. "
+            "Oracle: a model database per name; every operation's outcome class, storage.ShowDB() = the created names, the selected database compared after every USE / tick / statement, every database selected in turn and compared at each restart and at the end, "
+            "row ids stable and never reused per database, and finally one more insert per table of every database must succeed. "
+            "Non-trivial: >=2 databases with data, >=2 switches, >=1 tick after a switch and >=1 restart; distinct by case JSON.",
+    "technique": "stateful property-based testing (rapid) of the session layer against a per-database reference model, with the flush timers made explicit and deterministic by hooks",
+    "level_text": "Random search over USE/CREATE DATABASE/restart interleavings with deterministic timer ticks. Search, not proof.",
+    "level_note": "Trusted: the store registry hook (VerifTickAll does exactly what each live 100 ms timer does), lower-case database names (one file pair per lower-cased name).",
+}
+
+PROPS["C18"] = {
+    "kind": "harness", "test": "TestC18", "level": "exploration", "journal": True,
+    "tiers": tiers(400, 4, 5000, 16),
+    "rule": "rapid-generated cases: a session state (database selected and populated with four tables over all four column types holding NULLs, an empty table; no USE yet; failed USE; USE of an empty database) and 5-40 statements executed through Session.ExecQuery: "
+            "4 in 5 are drawn from the full statement grammar with identifiers from the same pools the schema uses, so that they resolve tables and columns and then apply AVG/COUNT/ORDER BY/comparisons/INSERT/UPDATE values to columns of arbitrary type and to NULLs, "
+            "or miss, duplicate or ambiguously name columns; 1 in 5 from a list of 70 targeted statements (aggregates over VARCHAR/BOOLEAN/NULL, ORDER BY over NULLs and ambiguous keys, mistyped comparisons, catalog tables, degenerate DDL). "
+            "Oracle: the call returns nil or an error within 20 s, never panics (recover), the worker never dies (journal), and the session still answers a SELECT afterwards. Non-trivial: the statement parses and the engine refuses it (an error path); distinct by (state, SQL text).",
+    "technique": "grammar-based fuzzing of the executor (rapid): type- and name-confused statements against NULL-bearing tables; oracle: no panic / no hang / session survives",
+    "level_text": "Random search for crashing statements. Search, not proof.",
+    "level_note": "A hang is declared after 20 s for one statement. Parse-level crashes are C09's business (counted here as parse-error).",
+}
+
 HOOK_COMMITS = ["7ca683e"]
 
 NOT_APPLICABLE = {}
